@@ -31,14 +31,17 @@ ENCODED = ["twisted.internet.task:Clock.callLater", "twisted.internet.task:Clock
            "twisted.internet.base:DelayedCall.active"]
 BOUNDS = {"quick": {"n": 3}, "thorough": {"n": 4}}
 B = {}
-BOUNDS_TEXT = ("n calls scheduled at time 0 with symbolic real delays >= 0 (n = 3 quick; 4 thorough, 5 for the "
-               "op-free history), ONE modification: none / cancel(i) / reset(i, s >= 0) / delay(i, any real s) / "
+BOUNDS_TEXT = ("hist3/hist4: n calls scheduled at time 0 with symbolic real delays >= 0 (n = 3 quick; 4 thorough, 5 for the "
+               "op-free plain5), ONE modification: none / cancel(i) / reset(i, s >= 0) / delay(i, any real s) / "
                "callLater(s >= 0) of a further call; performed at top level before the first advance, between the "
                "two advances, after both, or from inside running call j (every j, including j == i); two symbolic "
-               "advances >= 0 (Clock.pump of both, or two Clock.advance calls when the modification is between them)")
-OUTSIDE = ["float rounding: times are exact reals (the driver pins CrossHair's real-number float model); "
+               "advances >= 0 (Clock.pump of both, or two Clock.advance calls when the modification is between them). "
+               "two_mods: 2 calls, a reset/delay before the first advance followed by a cancel/reset/delay from inside "
+               "a running call or between the advances (quick: both on the same call; thorough: any targets)")
+OUTSIDE = ["non-finite times (inf/nan arguments are not explored)",
+           "float rounding: times are exact reals (the driver pins CrossHair's real-number float model); "
            "results hold for times on which float arithmetic is exact (e.g. dyadic)",
-           "more than one modification per history; more than n+1 calls; negative callLater delays / negative "
+           "more than two modifications per history (two only in two_mods); more than n+1 calls; negative callLater delays / negative "
            "reset arguments / negative advances",
            "tie order between calls of which one was rescheduled (only checked: never-rescheduled calls with equal "
            "times run in creation order)",
